@@ -73,6 +73,7 @@ func NewRunner(rec *Rec, p *Program, rp RunParams) *Runner {
 		r.S = NewSess(rec, cfg, r.FS, r.Dir, p.ID, Ev{"prog": p, "run": rp})
 		r.S.AfterInjected = r.afterInjected
 		r.S.Hold = rp.Hold
+		r.S.WalStates = rp.WalStates && mode == "seq"
 		if mode != "seq" {
 			r.FS.Hook = r.hook
 		}
@@ -93,6 +94,7 @@ func NewRunnerOn(rec *Rec, p *Program, dir string, rp RunParams) *Runner {
 	r.S = NewSess(rec, p.Cfg, RootFS(p.Cfg.FS), dir, p.ID, Ev{"prog": p, "run": rp})
 	r.S.AfterInjected = r.afterInjected
 	r.S.Hold = rp.Hold
+	r.S.WalStates = rp.WalStates
 	return r
 }
 
@@ -419,7 +421,7 @@ func (r *Runner) step(o Op) (died bool, err error) {
 	case "open":
 		err = r.S.Open()
 	case "tear":
-		err = r.Tear(Expand(o.V, o.VL))
+		err = r.Tear(Expand(o.V, o.VL), o.Cut, o.N)
 	default:
 		err = r.S.Do(o)
 	}
